@@ -220,6 +220,9 @@ pub struct Ctx {
     assumptions: Mutex<Vec<String>>,
     start: Instant,
     replay_counter: AtomicU64,
+    /// set in the process of a second build of the harness (VERIF_VARIANT, e.g. "nodebug": built
+    /// without debug assertions and overflow checks): no evidence file, a summary line instead
+    pub variant: Option<String>,
 }
 
 fn fnv64(data: &[u8], mut h: u64) -> u64 {
@@ -325,7 +328,78 @@ impl Ctx {
             assumptions: Mutex::new(vec![]),
             start: Instant::now(),
             replay_counter: AtomicU64::new(0),
+            variant: std::env::var("VERIF_VARIANT").ok().filter(|v| !v.is_empty()),
         }
+    }
+
+    /// Run the same check in a second build of the harness (`exe`, built with another profile) as a
+    /// child process and fold what it reports into this run: its violations are violations (their
+    /// replay files name the build), its case counts become one more part of the evidence.
+    pub fn run_variant(&self, exe: &str, label: &str, what: &str) {
+        if self.variant.is_some() {
+            return;
+        }
+        if !self.part_enabled(&format!("all-parts@{label}")) {
+            return;
+        }
+        let t0 = Instant::now();
+        if !Path::new(exe).exists() {
+            self.inconclusive(format!("the {label} build of the harness ({exe}) does not exist"));
+            return;
+        }
+        let out = std::process::Command::new(exe)
+            .args([self.property.as_str(), self.tier.name()])
+            .env("VERIF_VARIANT", label)
+            .env("VERIF_SEED", self.seed.to_string())
+            .stderr(std::process::Stdio::inherit())
+            .output();
+        let out = match out {
+            Ok(o) => o,
+            Err(e) => {
+                self.inconclusive(format!("the {label} build of the harness could not be started: {e}"));
+                return;
+            }
+        };
+        let text = String::from_utf8_lossy(&out.stdout).to_string();
+        let mut summary: Option<Value> = None;
+        for line in text.lines() {
+            if let Some(rest) = line.strip_prefix("VARIANT-SUMMARY ") {
+                summary = serde_json::from_str(rest).ok();
+            } else if line.starts_with("VIOLATION ") || line.starts_with("KNOWN-FINDING") {
+                println!("{line}");
+            }
+        }
+        let Some(sum) = summary else {
+            self.inconclusive(format!("the {label} build of the harness ended without a summary (exit status {:?})", out.status.code()));
+            return;
+        };
+        let name = format!("all-parts@{label}");
+        for v in sum["violations"].as_array().cloned().unwrap_or_default() {
+            self.violations.lock().unwrap().push(Violation {
+                part: format!("{}@{label}", v["part"].as_str().unwrap_or("?")),
+                replay: PathBuf::from(v["replay"].as_str().unwrap_or("")),
+                msg: v["msg"].as_str().unwrap_or("").to_string(),
+            });
+        }
+        for i in sum["inconclusive"].as_array().cloned().unwrap_or_default() {
+            self.inconclusive(format!("{label} build: {}", i.as_str().unwrap_or("?")));
+        }
+        let rep = PartReport {
+            name: name.clone(),
+            kind: "second-build",
+            evaluations: sum["evaluations"].as_u64().unwrap_or(0),
+            distinct_nontrivial: sum["distinct_nontrivial"].as_u64().unwrap_or(0),
+            nontrivial_total: sum["nontrivial_total"].as_u64().unwrap_or(0),
+            labels: BTreeMap::new(),
+            samples: vec![],
+            exhaustive: false,
+            excluded_known: 0,
+            wall_s: t0.elapsed().as_secs_f64(),
+            rule: format!("every part listed above except corpus-guided fuzzing, run once more by a second build of the harness and of the crates under test: {what}; same generators, same seed, same oracles"),
+            extra: sum["parts"].clone(),
+        };
+        eprintln!("[{}] part {:<22} {:<10} evals={:<9} distinct={:<9} {:.1}s", self.property, name, "2nd-build", rep.evaluations, rep.distinct_nontrivial, rep.wall_s);
+        self.parts.lock().unwrap().push(rep);
     }
 
     /// `VERIF_PARTS=a,b` restricts a run to the parts whose name contains one of the substrings
@@ -420,6 +494,7 @@ impl Ctx {
             "signature": fail.sig,
             "seed": self.seed,
             "origin": origin,
+            "variant": self.variant,
         });
         let h = hash_str(&v["case"].to_string());
         let n = self.replay_counter.fetch_add(1, Ordering::SeqCst);
@@ -778,6 +853,20 @@ impl Ctx {
             "wall_s": (wall * 1000.0).round() / 1000.0,
             "violations": violations.len(),
         });
+        if let Some(label) = &self.variant {
+            // a second build reports to the run that started it
+            let sum = json!({
+                "evaluations": evaluations,
+                "distinct_nontrivial": distinct,
+                "nontrivial_total": parts.iter().map(|p| p.nontrivial_total).sum::<u64>(),
+                "violations": violations.iter().map(|v| json!({"part": v.part, "replay": v.replay.display().to_string(), "msg": v.msg})).collect::<Vec<_>>(),
+                "inconclusive": inconclusive,
+                "parts": parts.iter().map(|p| json!({"name": p.name, "evaluations": p.evaluations, "distinct_nontrivial": p.distinct_nontrivial})).collect::<Vec<_>>(),
+            });
+            println!("VARIANT-SUMMARY {}", sum);
+            eprintln!("[{}@{}] {} cases, {} violation(s)", self.property, label, evaluations, violations.len());
+            return if !violations.is_empty() { 1 } else if !inconclusive.is_empty() { 2 } else { 0 };
+        }
         let dir = Path::new(VERIF_DIR).join("evidence");
         let _ = std::fs::create_dir_all(&dir);
         let path = dir.join(format!("{}.json", self.property));
